@@ -273,7 +273,15 @@ class C19(World):
         def check_stream(i, step, last_op):
             s, fl = streams[i], flags[i]
             if s.t_supply is None or s.t_target is None:
-                return  # not a stream yet: nothing to judge until both temperatures are set
+                # not a stream yet: the temperature clauses have nothing to judge until both temperatures are set, but
+                # "resistance is the reciprocal of the film coefficient" needs no temperature (defect 33b5625)
+                htc, htr = s.htc, s.htr
+                if isinstance(htc, (int, float)) and not isinstance(htc, bool) and htc != 0:
+                    tick("htr")
+                    probe("htr_on_incomplete")
+                    if not (isinstance(htr, (int, float)) and math.isclose(htr * htc, 1.0, rel_tol=1e-12)):
+                        V("htr", f"{last_op}|incomplete", step, f"incomplete stream {i}: htc={htc!r} htr={htr!r}", ("s", i))
+                return
             if fl.get("incomplete"):
                 fl["incomplete"] = False
                 probe("incomplete_stream_completed")
